@@ -14,6 +14,7 @@ import (
 func TestC07(t *testing.T) {
 	p := defaultProfile()
 	p.MinBlocks, p.MaxBlocks = 8, 30
+	p.Alt, p.PAlt = govHeavyProfile(), 35
 	runCheck(t, "C07", p, func(src Source, st *Stats) *Outcome {
 		if gs, ok := src.(*GenSource); ok {
 			gs.OnEndBlock = func(w *World, b *Block) {
